@@ -45,9 +45,9 @@ def _tame(spec):
             out["box"] = [l, l + w, b, b + h]
         for k in ("min_bin_width", "min_bin_height", "min_derivative"):
             if k in out:
-                out[k] = max(out[k], 1e-3)
+                out[k] = max(out[k], 1e-5 if k == "min_derivative" else 1e-3)
         if out.get("extra"):
-            out["extra"] = {k: max(v, 1e-3) for k, v in out["extra"].items()}
+            out["extra"] = {k: max(v, 1e-5 if k == "min_derivative" else 1e-3) for k, v in out["extra"].items()}
         return out
     if isinstance(spec, list):
         return [_tame(v) for v in spec]
@@ -67,6 +67,7 @@ def _stat_case(draw):
         c["cache"] = draw(st.booleans())
         c["scale"] = draw(st.sampled_from([1.0, 1.0, 0.5, 2.0]))
         c["direction"] = draw(st.sampled_from(["forward", "inverse"]))
+        c["warm"] = draw(st.booleans())
         c["n"] = draw(st.integers(1, 3))
     else:
         c["F"] = draw(st.integers(1, 4))
@@ -104,6 +105,7 @@ def _case(draw):
     c["n"] = draw(st.integers(1, 3))
     c["seed"] = draw(st.integers(0, 10 ** 6))
     c["special"] = draw(st.sampled_from([0.0, 0.0, 0.3]))
+    c["warm"] = draw(st.booleans())
     return c
 
 
@@ -190,6 +192,9 @@ def _run_stat(case, res):
         m.eval()
         site = cls.__name__
         res.labels += ["lin:" + case["lin"], "D:%d" % D]
+        if case.get("warm"):
+            with torch.no_grad():
+                m.inverse(torch.randn(2, D, generator=g))      # fills the (float32) cache through the inverse direction
         twin = copy.deepcopy(m).double()
         X = torch.randn(case["n"], D, generator=g) * 2
         inverse = case["direction"] == "inverse"
@@ -303,6 +308,37 @@ def _run_stat(case, res):
     return res
 
 
+class _Id:
+    def __call__(self, z, c=None):
+        return z, None
+
+
+def _stage_near_kink(b, spec, twin, Xd, Cd):
+    """forward direction: does any intermediate value (float64) lie within a few float32 ulps of a kink of the stage it enters?
+    (tanh(9.5) = 1 - 1e-8 in double and exactly 1.0 = a knot of the following linear spline in single precision)"""
+    try:
+        parts = list(zip(b.parts, spec["parts"], twin._transforms)) if spec["t"] == "composite" else [(b, spec, twin)]
+        z = Xd
+        with torch.no_grad():
+            for pb, ps, tm in parts:
+                if not pb.smooth:
+                    kinks = [float(v) for v in pb.specials]
+                    if pb.knots is not None:
+                        kinks += [float(v) for v in pb.knots().reshape(-1)]
+                    if ps["t"] == "leakyrelu":
+                        kinks.append(0.0)
+                    if ps["t"] == "logtanh":
+                        kinks += [float(ps.get("cut", 1.0)), -float(ps.get("cut", 1.0))]
+                    zz = z.reshape(-1)
+                    for kv in kinks:
+                        if bool(((zz - kv).abs() <= 16 * 2.0 ** -23 * (1 + abs(kv))).any()):
+                            return True
+                z = tm(z, Cd)[0]
+        return False
+    except Exception:
+        return True
+
+
 def run_case(case):
     res = CaseResult()
     if case.get("stat"):
@@ -331,11 +367,37 @@ def run_case(case):
             X = (torch.rand(X.shape, generator=g0) * 2 - 1) * case["big_inputs"]
             if case["spec"]["t"] == "exp":
                 X = X.clamp(-20, 20)
+        if case["spec"]["t"].startswith(("cdf_", "fn_")) and b.knots is not None and b.smooth and case["seed"] % 2:
+            # direct-parameter smooth splines: some inputs in the last few percent of a bin (never on a knot), where a steep knot
+            # derivative meets a flat one
+            try:
+                with torch.no_grad():
+                    kn = b.knots().double()                       # [*shape, K+1]
+                    K_ = kn.shape[-1] - 1
+                    g1 = torch.Generator().manual_seed(case["seed"] + 13)
+                    k = torch.randint(1, K_ + 1, X.shape, generator=g1)
+                    right = torch.gather(kn.expand(list(X.shape) + [K_ + 1]), -1, k[..., None])[..., 0]
+                    left = torch.gather(kn.expand(list(X.shape) + [K_ + 1]), -1, (k - 1)[..., None])[..., 0]
+                    frac = torch.tensor([0.01, 0.03, 0.08])[torch.randint(0, 3, X.shape, generator=g1)].double()
+                    Xk = (right - frac * (right - left)).to(X.dtype)
+                    sel = torch.rand(X.shape, generator=g1) < 0.5
+                    X = torch.where(sel, Xk, X)
+                res.labels.append("inputs_near_bin_ends")
+            except Exception:
+                pass
         C = zoo.gen_context(b, ctxk, n, case["seed"]) if ctxk is not None else None
         inverse = case["direction"] == "inverse" and b.invertible and not b.inv_via_forward
         site = type(m).__name__
         res.labels += ["dir:" + ("inverse" if inverse else "forward"), "top:" + case["spec"]["t"], "regime:" + case["init"]["regime"],
                        "dim:%dD" % (len(case["shape"]) + 1)] + ["tag:" + t for t in b.tags[:3]]
+        if case.get("warm") and b.invertible and not b.inv_via_forward:
+            # the float32 model has been used (inverse direction: caches of linear layers hold float32 matrices) before it is converted
+            try:
+                with torch.no_grad():
+                    m.inverse(m(X, C)[0], C)
+                res.labels.append("warm_before_double")
+            except Exception:
+                pass
         twin = copy.deepcopy(m).double()
         if not zoo.chain_moderate(b, X, C, case["spec"], bound=25.0 if case.get("big_inputs") else 15.0):  # the float64 twin is accurate in saturation (softplus forms)
             res.inconclusive += 1
@@ -418,7 +480,12 @@ def run_case(case):
             # C0-only maps (linear spline, LeakyReLU, LogTanh): a float32 value can sit on the other side of a kink than its
             # float64 counterpart (e.g. tanh saturating to exactly 1.0 = a knot), which moves the log-det by the derivative jump:
             # compare log-dets only where the float64 log-det does not jump within a few float32 ulps of the inputs
-            near_kink = False
+            if not inverse:
+                near_kink = _stage_near_kink(b, case["spec"], twin, Xd, Cd)
+            elif case["spec"]["t"] in ("composite", "multiscale", "inverse"):
+                near_kink = True          # inverse direction of a chain: not followed stage by stage
+            else:
+                near_kink = _stage_near_kink(b, case["spec"], _Id(), o64, Cd)     # a single C0 leaf: its inverse lands next to a knot?
             try:
                 with torch.no_grad():
                     for sgn in (-1.0, 1.0):
